@@ -1838,7 +1838,10 @@ class PyCdlib:
         csum = 0
         curr_sector = 0
         while curr_sector < num_sectors:
-            block = data_fp.read(self.logical_block_size)
+            # Only the data_len bytes of the file take part in the checksum,
+            # no matter what follows them in the file object.
+            block = data_fp.read(min(self.logical_block_size,
+                                     data_len - curr_sector * self.logical_block_size))
             block = block.ljust(2048, b'\x00')
             i = 0
             if curr_sector == 0:
